@@ -105,11 +105,15 @@ class StaticFileHandler(RequestHandler):
         # traversal check below sees the path that is actually opened.
         requested_path = unquote(request.path).lstrip("/")
 
-        # Construct the full file path
+        # Construct the full file path. Resolve strictly: a non-strict resolve()
+        # gives up at a symlink loop and leaves the rest of the path (including
+        # further symlinks) unresolved, so the containment check below would
+        # be applied to a path that is not the one the OS ends up opening.
         try:
-            file_path = (self.document_root / requested_path).resolve()
-        except (ValueError, OSError):
-            # e.g. an embedded NUL byte (%00) or an unresolvable path
+            file_path = (self.document_root / requested_path).resolve(strict=True)
+        except (ValueError, OSError, RuntimeError):
+            # e.g. an embedded NUL byte (%00), a path that does not exist or a
+            # symlink loop
             return GeminiResponse(status=StatusCode.NOT_FOUND.value, meta="Not found")
 
         # Path traversal protection: ensure the resolved path is within document root
